@@ -1,1 +1,39 @@
-def main : IO Unit := IO.println "rvdrive"
+import Drive.Util
+import Drive.Sketch
+import Drive.Bloom
+import Drive.TinyLFU
+import Drive.Simd
+import Drive.Policy
+import Drive.Tree
+import Drive.Buffer
+import Drive.Alloc
+import Drive.Cache
+open Drive
+
+/-- component name -> validator.  A component may serve several streams. -/
+def components : List (String × (IO.FS.Stream → IO Verdict)) :=
+  [("sketch", Drive.Sketch.run),
+   ("bloom", Drive.Bloom.run),
+   ("tinylfu", Drive.TinyLFU.run),
+   ("simd", Drive.Simd.run),
+   ("policy", Drive.Policy.run),
+   ("tree", Drive.Tree.run),
+   ("buffer", Drive.Buffer.run),
+   ("alloc", Drive.Alloc.run),
+   ("cache", Drive.Cache.run)]
+
+def main (args : List String) : IO UInt32 := do
+  match args with
+  | [comp, path] =>
+    match components.lookup comp with
+    | none => IO.eprintln s!"rvdrive: unknown component {comp}"; return 2
+    | some run =>
+      let h ← IO.FS.Handle.mk path IO.FS.Mode.read
+      let v ← run (IO.FS.Stream.ofHandle h)
+      if v.ok then
+        IO.println s!"OK lines={v.lines} checks={v.checks}"
+        return 0
+      else
+        IO.println s!"REJECT step={v.lines} checks={v.checks} reason={v.msg}"
+        return 1
+  | _ => IO.eprintln "usage: rvdrive <component> <trace>"; return 2
